@@ -25,7 +25,7 @@ Definition pstep (st : pstate) (c : Z) : pstate :=
   else if c =? 93 (* ] *) then
     let st := flush_num st in
     match stack st with
-    | top :: next :: rest => {| stack := (L (rev top) :: next) :: rest; num := None |}
+    | top :: next :: rest => {| stack := (L (rev_append top []) :: next) :: rest; num := None |}
     | _ => st
     end
   else if c =? 44 (* , *) then flush_num st
